@@ -141,7 +141,9 @@ def amp_of(ks):
 # ---------------------------------------------------------------------------
 
 GAINS = [F(1), F(-1), F(2), F(-3), F(1, 2), F(5), F(-1, 3), F(3, 4), F(-7, 5),
-         F(10), F(1, 10), F(-2)]
+         F(10), F(1, 10), F(-2),
+         # integers g with g * (1 / g) != 1 in floats
+         F(49), F(98), F(103), F(-107), F(161)]
 
 ON_CIRCLE = [(F(3, 5), F(4, 5)), (F(4, 5), F(3, 5)), (F(-3, 5), F(4, 5)),
              (F(-4, 5), F(3, 5)), (F(0), F(1)), (F(5, 13), F(12, 13)),
@@ -309,7 +311,8 @@ def cases(ctx):
     if u < 0.62:
       reals, pairs = rand_poles(rng)
       t = rng.random()
-      ctype = "frac" if t < 0.70 else ("float" if t < 0.88 else "int")
+      ctype = "frac" if t < 0.55 else "fraclead" if t < 0.70 else \
+          ("float" if t < 0.88 else "int")
       variant = "list" if (ctype == "int" or rng.random() < 0.6) else "expr"
       if ctype == "int":
         gain = integral_gain(rng, reals, pairs)
@@ -376,7 +379,7 @@ def close(got, want, tol):
 def judge_plan(ctype, ks, truth, reals, pairs):
   """Is the float verdict of a *correct* step-down well-posed?  ks: exact
   reflection coefficients, highest stage first, up to the deciding one."""
-  exact = ctype == "frac"
+  exact = ctype in ("frac", "fraclead")
   amp = 1.0
   far = all(abs(F(p) ** 2 - 1) >= F(1, 100) for p in reals) and \
         all(abs(F(a) ** 2 + F(b) ** 2 - 1) >= F(1, 100) for a, b in pairs)
@@ -394,6 +397,13 @@ def judge_plan(ctype, ks, truth, reals, pairs):
 
 
 def build_filter(ctype, variant, gain, reals, pairs, num):
+  if ctype == "fraclead":
+    # as "frac", the leading denominator coefficient an int when integral
+    base = build_filter("frac", "list", gain, reals, pairs, num)
+    den = list(base.denominator)
+    if F(den[0]).denominator == 1:
+      den[0] = int(den[0])
+    return ZFilter(list(base.numerator), den)
   gain = F(gain)
   conv = (lambda v: float(v)) if ctype == "float" else (lambda v: v)
   if variant == "list":
@@ -516,7 +526,7 @@ def run_stab(ctx, case):
   # ---- evidence for the float well-posedness rule: how far the float
   # reflection coefficients really are from the exact ones, against the
   # margin 1e-10 * amplification that judge_plan relies on (never a verdict)
-  if judged and monic and ctype != "frac" and upto:
+  if judged and monic and ctype not in ("frac", "fraclead") and upto:
     gen = parcor(ZFilter(filt.denpoly))
     amp = 1.0
     try:
@@ -754,7 +764,7 @@ def finish(ctx):
     ctx.need("stab:judged-truth-" + t, 50)
   for g in ("1", "-1", "|g|>1", "|g|<1"):
     ctx.need("gain:" + g, 100)
-  for c in ("frac", "float", "int"):
+  for c in ("frac", "float", "int", "fraclead"):
     ctx.need("ctype:" + c, 100)
   ctx.need("variant:list", 100)
   ctx.need("variant:expr", 100)
